@@ -379,6 +379,37 @@ Definition spec_covariate_effect (a : cov_args) (l : list stmt) : option (list s
   end.
 
 (* ==================================================================================================== *)
+(* executable guard of the soundness theorem of add_covariate_effect (ProofsSurgery.v)                  *)
+(* ==================================================================================================== *)
+Definition stat_keys (stats : list (id * id * Q)) : list id := map (fun st => fst (fst st)) stats.
+Definition stat_names (stats : list (id * id * Q)) : list id := map (fun st => snd (fst st)) stats.
+Definition fresh_names (a : cov_args) : list id := a_effect a :: stat_names (a_stats a).
+Definition template_e2 (T : templates) (a : cov_args) : expr :=
+  subs s_cov (Sym (a_cov a))
+    (subs_map (map (fun p => (fst p, Sym (snd p))) (a_thetas a)) (effect_expr T (a_kind a) (a_cats a) (a_mc a))).
+Definition emitted (T : templates) (a : cov_args) (ts : id) : bool := memp ts (free_syms (template_e2 T a)).
+Fixpoint nodupb (l : list id) : bool :=
+  match l with [] => true | x :: tl => negb (memp x tl) && nodupb tl end.
+
+(* the new names (effect symbol, statistic symbols) are fresh for the program and distinct; covariate, thetas
+   and parameter are not among them and are not template placeholders that get substituted; every statistic
+   the documented formula uses is emitted by the code's template *)
+Definition g_surgery (T : templates) (a : cov_args) (l : list stmt) : bool :=
+  let F := fresh_names a in
+  let keys := stat_keys (a_stats a) in
+  let e0D := effect_expr doc_templates (a_kind a) (a_cats a) (a_mc a) in
+  forallb (fun x => negb (memp x (flat_map defs l)) && negb (memp x (flat_map rhs l))) F
+  && negb (memp (a_param a) F)
+  && nodupb (stat_names (a_stats a))
+  && forallb (fun nm => negb (memp nm keys)) (stat_names (a_stats a))
+  && negb (memp (a_cov a) F) && negb (memp (a_cov a) keys)
+  && forallb (fun p => negb (memp (snd p) F) && negb (memp (snd p) keys) && negb (Pos.eqb (snd p) s_cov)) (a_thetas a)
+  && forallb (fun y => negb (memp y keys)) F
+  && forallb (fun x => negb (memp x (free_syms e0D))) F
+  && forallb (fun st => implb (memp (fst (fst st)) (free_syms e0D)) (emitted T a (fst (fst st)))) (a_stats a)
+  && negb (memp (a_param a) (free_syms (doc_effect_closed a))).
+
+(* ==================================================================================================== *)
 (* add_iiv                                                                                              *)
 (* ==================================================================================================== *)
 Definition add_iiv (T : templates) (k : ikind) (o : binop) (p eta phi : id) (l : list stmt) : option (list stmt) :=
@@ -415,6 +446,36 @@ Definition spec_iiv (k : ikind) (o : binop) (p eta : id) (l : list stmt) : optio
       | _ => None
       end
   end.
+
+(* ==================================================================================================== *)
+(* remove_iiv: what replaces a statement that mentions the eta.  The implementation works on                 *)
+(* sympy.expand(expression) (an engine call: its top-level function and args are exported):                *)
+(*   no args (the expression is the eta): 0;  exp(...): eta := 0;                                          *)
+(*   product: every factor that mentions the eta is replaced by 1;                                         *)
+(*   sum: a term exp(...) that mentions the eta is replaced by 0, in any other such term eta := 0.          *)
+(* ==================================================================================================== *)
+Inductive topkind := TopAtom | TopExp | TopMul | TopAdd | TopOther.
+
+Fixpoint product_of (l : list expr) : expr :=
+  match l with [] => Num 1 | [x] => x | x :: tl => Mul x (product_of tl) end.
+Fixpoint sum_of (l : list expr) : expr :=
+  match l with [] => Num 0 | [x] => x | x :: tl => Add x (sum_of tl) end.
+Definition mentions (eta : id) (e : expr) : bool := memp eta (free_syms e).
+Definition is_exp (e : expr) : bool := match e with Fn1 f _ => Pos.eqb f F_EXP | _ => false end.
+
+Definition remove_iiv_expr (eta : id) (k : topkind) (args : list expr) (whole : expr) : expr :=
+  match k with
+  | TopAtom => Num 0
+  | TopExp => subs eta (Num 0) whole
+  | TopMul => product_of (map (fun f => if mentions eta f then Num 1 else f) args)
+  | TopAdd => sum_of (map (fun t => if mentions eta t then (if is_exp t then Num 0 else subs eta (Num 0) t) else t) args)
+  | TopOther => (* generic branch: func is neither Mul nor Add: nothing is substituted *) whole
+  end.
+
+(* guard for "remove_iiv restores the expression the eta was added to", product case: the factors that
+   mention the eta mention nothing else (they are exactly what add_iiv introduced) *)
+Definition g_eta_factors_pure (eta : id) (args : list expr) : bool :=
+  forallb (fun f => negb (mentions eta f) || forallb (Pos.eqb eta) (free_syms f)) args.
 
 (* ==================================================================================================== *)
 (* error models: the new Y expression and the guard statement                                           *)
